@@ -63,6 +63,12 @@ func lostReceiverWrites(fn *ssa.Function) []string {
 	var out []string
 	for _, b := range fn.Blocks {
 		for _, in := range b.Instrs {
+			// a pointer-receiver method of the same type called on the copy writes the copy
+			if call, ok := in.(*ssa.Call); ok && len(call.Call.Args) > 0 && call.Call.Args[0] == ssa.Value(spill) {
+				if callee := call.Call.StaticCallee(); callee != nil && writesThroughRecv(callee, 0) {
+					out = append(out, "(through "+callee.Name()+")")
+				}
+			}
 			st, ok := in.(*ssa.Store)
 			if !ok || st.Val == ssa.Value(recv) {
 				continue
@@ -1207,4 +1213,41 @@ func constantInt64(tv types.TypeAndValue) (int64, bool) {
 	var v int64
 	_, err := fmt.Sscan(s, &v)
 	return v, err == nil
+}
+
+// writesThroughRecv: a pointer-receiver method that stores into fields of *receiver (directly or through another
+// such method).
+func writesThroughRecv(fn *ssa.Function, depth int) bool {
+	if depth > 3 || fn.Signature.Recv() == nil || len(fn.Params) == 0 || len(fn.Blocks) == 0 {
+		return false
+	}
+	if _, isPtr := fn.Signature.Recv().Type().Underlying().(*types.Pointer); !isPtr {
+		return false
+	}
+	recv := fn.Params[0]
+	for _, b := range fn.Blocks {
+		for _, in := range b.Instrs {
+			switch x := in.(type) {
+			case *ssa.Store:
+				root := x.Addr
+				for {
+					if fa, ok := root.(*ssa.FieldAddr); ok {
+						root = fa.X
+						continue
+					}
+					break
+				}
+				if root == ssa.Value(recv) && x.Addr != ssa.Value(recv) {
+					return true
+				}
+			case *ssa.Call:
+				if len(x.Call.Args) > 0 && x.Call.Args[0] == ssa.Value(recv) {
+					if callee := x.Call.StaticCallee(); callee != nil && callee != fn && writesThroughRecv(callee, depth+1) {
+						return true
+					}
+				}
+			}
+		}
+	}
+	return false
 }
